@@ -52,9 +52,11 @@ pub fn resolve(container: &str, spelling: &str, builtins: &[&str]) -> Resolved {
     if nav.is_empty() {
         return Resolved::Unspecified("empty name".to_string());
     }
-    if nav.contains("//") || (nav.ends_with('/') && nav.len() > 1) {
-        return Resolved::Unspecified("doubled or trailing separator".to_string());
+    if nav.ends_with('/') && nav.len() > 1 {
+        return Resolved::Unspecified("trailing separator".to_string());
     }
+    // an empty component (doubled separator) names the same directory, like
+    // '.', and is normalised away below
     let mut comps: Vec<String> = if nav.starts_with('/') {
         Vec::new()
     } else {
@@ -100,6 +102,9 @@ pub struct Model<'a> {
     /// every project file the expansion reads (sources and data)
     pub touched: BTreeSet<String>,
     pub steps: usize,
+    /// canonical paths of roots that were named by a non-canonical spelling:
+    /// how #once and cycle bookkeeping identify such a root is not specified
+    pub noncanon_roots: BTreeSet<String>,
 }
 
 pub enum Stop {
@@ -109,7 +114,7 @@ pub enum Stop {
 
 impl<'a> Model<'a> {
     pub fn new(case: &'a Case, builtins: Vec<&'a str>) -> Model<'a> {
-        Model { case, builtins, once_done: BTreeSet::new(), stack: Vec::new(), bits: String::new(), expansions: BTreeMap::new(), touched: BTreeSet::new(), steps: 0 }
+        Model { case, builtins, once_done: BTreeSet::new(), stack: Vec::new(), bits: String::new(), expansions: BTreeMap::new(), touched: BTreeSet::new(), steps: 0, noncanon_roots: BTreeSet::new() }
     }
 
     fn byte_bits(&mut self, b: u8) {
@@ -147,6 +152,9 @@ impl<'a> Model<'a> {
                     Resolved::Unspecified(w) => return Err(Stop::Unspecified(w)),
                     Resolved::Builtin(_) => return Err(Stop::Unspecified("built-in library content is not modelled".to_string())),
                     Resolved::Path(q) => {
+                        if self.noncanon_roots.contains(&q) {
+                            return Err(Stop::Unspecified("a root named by a non-canonical spelling is included again".to_string()));
+                        }
                         if self.once_done.contains(&q) {
                             if self.stack.contains(&q) {
                                 return Err(Stop::Unspecified("#once file re-included while still being expanded".to_string()));
@@ -266,18 +274,47 @@ pub fn run(case: &Case, builtins: Vec<&str>) -> ModelResult {
     let mut m = Model::new(case, builtins);
     let mut expected = None;
     for root in &case.roots {
-        // a root named on the command line with a non-canonical spelling is a
-        // silent case
-        let canonical = !(root.starts_with("./") || root.contains("/../") || root.contains("//") || root.contains('\\') || root.starts_with("../") || root.starts_with('/'));
-        if !canonical {
-            expected = Some(Expected::Unspecified("non-canonical root spelling".to_string()));
-            break;
+        // a root named on the command line with a non-canonical spelling
+        // (`./main.asm`, `build/../main.asm`): paths inside it are still
+        // resolved relative to the file it denotes; only its own identity for
+        // #once / cycle bookkeeping is a silent case
+        // The repository's own tests pin that a '.' or empty component in the
+        // *including* file's path is kept as an opaque component
+        // (src/test/file_navigation.rs: "./main.asm" + "sibling.asm" ->
+        // "./sibling.asm"), so such root spellings are silent cases; a root
+        // spelled through `dir/..` is normalised by the ordinary '..' rule.
+        let has_dot_component = root.split('/').any(|c| c == "." || c.is_empty());
+        let canon = if root.contains('\\') || root.starts_with('/') || root.starts_with("../") || has_dot_component {
+            None
+        } else {
+            match resolve("", root, &m.builtins) {
+                Resolved::Path(p) => Some(p),
+                _ => None,
+            }
+        };
+        let canon = match canon {
+            Some(c) => c,
+            None => {
+                expected = Some(Expected::Unspecified("root spelling cannot be canonicalised".to_string()));
+                break;
+            }
+        };
+        if &canon != root {
+            m.noncanon_roots.insert(canon.clone());
+            if case.roots.iter().filter(|r| **r != *root).any(|r| matches!(resolve("", r, &m.builtins), Resolved::Path(p) if p == canon)) {
+                expected = Some(Expected::Unspecified("the same root under two spellings".to_string()));
+                break;
+            }
         }
-        if m.once_done.contains(root) {
+        if m.once_done.contains(&canon) {
+            if &canon != root {
+                expected = Some(Expected::Unspecified("#once root named by a non-canonical spelling".to_string()));
+                break;
+            }
             continue;
         }
         m.stack.clear();
-        match m.expand(root) {
+        match m.expand(&canon) {
             Ok(()) => {}
             Err(Stop::Error(e)) => {
                 expected = Some(Expected::Error(e));
